@@ -134,10 +134,23 @@ fn e2e(c: (u16, u32, u16), s: (u16, u32, u16), check_hb: bool, res: &mut CaseRes
         }
     };
     // ---- frame_max obeyed
-    let body_len = if fm <= 70_000 { 3 * fm as usize + 5 } else { 200_000 };
+    let mut body_len = if fm <= 70_000 { 3 * fm as usize + 5 } else { 200_000 };
     let body = vec![0x5Au8; body_len];
     if let Err(e) = ch.basic_publish("", Publish::new(&body, "c15")) {
         res.violate("publish_failed", ek(&e));
+    }
+    // and bodies that end 1..8 bytes behind a full frame's payload (a final frame that small
+    // is where an off-by-the-frame-overhead shows), and one of exactly frame_max bytes
+    let payload = fm as usize - 8;
+    let tail = (crate::rng::fnv_str(&res.id) % 8) as usize + 1;
+    for len in [payload + tail, 2 * payload + 9 - tail, fm as usize] {
+        if len > 1_500_000 {
+            continue;
+        }
+        if let Err(e) = ch.basic_publish("", Publish::new(&vec![0x5Au8; len], "c15")) {
+            res.violate("publish_failed", ek(&e));
+        }
+        body_len += len;
     }
     // a synchronous call flushes the publish through
     let _ = ch.qos(0, 1, false);
